@@ -91,6 +91,11 @@ class Lib:
             ("grid2geo#a", cv.grid2geo, lambda: (55, 258328.9417, 5838121.2036)),
             ("grid2geo#n", cv.grid2geo, lambda: (31, 412345.678, 6912345.678, "north", gc.wgs84)),
             ("grid2geo#isg", cv.grid2geo, lambda: (561, 312345.6, 1234567.8, "south", gc.ans, gc.isg)),
+            # ellipsoids / projections built by the caller for one call and dropped afterwards (their ids are recycled)
+            ("geo2grid#tmpE1", cv.geo2grid, lambda: (-37.5, 144.2, 0, gc.Ellipsoid(6377563.396, 299.3249646))),
+            ("geo2grid#tmpE2", cv.geo2grid, lambda: (-37.5, 144.2, 0, gc.Ellipsoid(6378206.4, 294.9786982))),
+            ("grid2geo#tmpE3", cv.grid2geo, lambda: (55, 258328.9417, 5838121.2036, "south", gc.Ellipsoid(6377397.155, 299.1528128))),
+            ("geo2grid#tmpP", cv.geo2grid, lambda: (-33.5, 151.2, 0, gc.grs80, gc.Projection(300000, 5000000, 0.99994, 2, 141))),
         ]
         t["conv_cart"] += [
             ("llh2xyz#a", cv.llh2xyz, lambda: (-37.5, 144.2, 351.2)),
@@ -104,6 +109,9 @@ class Lib:
             ("polar2rect", cv.polar2rect, lambda: (1500.5, 212.25)),
             ("rect2polar", cv.rect2polar, lambda: (-300.0, 400.0)),
             ("rect_radius#ans", cv.rect_radius, lambda: (gc.ans,)),
+            ("rect_radius#tmpE1", cv.rect_radius, lambda: (gc.Ellipsoid(6377563.396, 299.3249646),)),
+            ("rect_radius#tmpE2", cv.rect_radius, lambda: (gc.Ellipsoid(6378206.4, 294.9786982),)),
+            ("alpha_coeff#tmpE3", cv.alpha_coeff, lambda: (gc.Ellipsoid(6377397.155, 299.1528128),)),
             ("alpha_coeff#grs", cv.alpha_coeff, lambda: (gc.grs80,)),
             ("beta_coeff#intl", cv.beta_coeff, lambda: (gc.intl24,)),
             ("date_to_yyyydoy", cv.date_to_yyyydoy, lambda: (D(2020, 2, 29),)),
@@ -116,6 +124,8 @@ class Lib:
         t["geod_dir"] += [
             ("vincdir#a", gd.vincdir, lambda: (-37.57037203, 144.25295244, 306.520537, 54972.271)),
             ("vincdir#long", gd.vincdir, lambda: (10.0, 20.0, 75.0, 1.2e7, gc.wgs84)),
+            ("vincdir#tmpE1", gd.vincdir, lambda: (10.0, 20.0, 75.0, 1.2e6, gc.Ellipsoid(6377563.396, 299.3249646))),
+            ("vincdir#tmpE2", gd.vincdir, lambda: (10.0, 20.0, 75.0, 1.2e6, gc.Ellipsoid(6378206.4, 294.9786982))),
             ("vincdir#dms", gd.vincdir, lambda: (an.DMSAngle(-37, 57, 3.7203), an.DMSAngle(144, 25, 29.5244),
                                                  an.DMSAngle(306, 52, 5.37), 54972.271)),
         ]
@@ -123,6 +133,8 @@ class Lib:
             ("vincinv#a", gd.vincinv, lambda: (-37.57037203, 144.25295244, -37.39101561, 143.55353839)),
             ("vincinv#ans", gd.vincinv, lambda: (5.0, 100.0, -40.0, -60.0, gc.ans)),
             ("vincinv#same", gd.vincinv, lambda: (12.0, 13.0, 12.0, 13.0)),
+            ("vincinv#tmpE1", gd.vincinv, lambda: (5.0, 100.0, -40.0, 60.0, gc.Ellipsoid(6377563.396, 299.3249646))),
+            ("vincinv#tmpE2", gd.vincinv, lambda: (5.0, 100.0, -40.0, 60.0, gc.Ellipsoid(6378206.4, 294.9786982))),
         ]
         t["geod_utm"] += [
             ("vincinv_utm#a", gd.vincinv_utm, lambda: (55, 258328.9417, 5838121.2036, 54, 758173.7973, 5828674.3402)),
@@ -157,6 +169,8 @@ class Lib:
             ("part_h2o", sv.part_h2o_vap_press, lambda: (25.0, 1013.25, 55.0)),
             ("mets_pd", sv.mets_partial_differentials, lambda: (1.00028, 25.0, 1000.0, 40.0)),
             ("precise_inst_ht", sv.precise_inst_ht, lambda: ([91.2345, 90.1005, 92.3681, 93.4980], 0.1, 1.2)),
+            ("precise_inst_ht#ndarray", sv.precise_inst_ht, lambda: (np.array([91.2345, 90.1005, 92.3681, 93.4980]), 0.1, 1.2)),
+            ("precise_inst_ht#tuple", sv.precise_inst_ht, lambda: ((91.2345, 90.1005, 92.3681, 93.4980), 0.1, 1.2)),
             ("joins", sv.joins, lambda: (500000.0, 6000000.0, 500300.0, 6000400.0)),
             ("radiations", sv.radiations, lambda: (500000.0, 6000000.0, 36.86989764584402, 500.0, 1.5, 0.9996)),
             ("va_conv", sv.va_conv, lambda: (84.13369, 89.844, 1.563, 1.3)),
@@ -200,6 +214,11 @@ class Lib:
                 k14 = "conform14#%s#2024-02-29" % n
                 t["tr14"].append((k14, tf.conform14, (lambda n=n: X + (D(2024, 2, 29), getattr(gc, n)))))
                 self.sweep.append(("tr14", k14))
+        # ... and every call made with a caller-built temporary ellipsoid / projection, one after the other (recycled ids)
+        for cls, lst in t.items():
+            for (k, _, _) in lst:
+                if "#tmp" in k:
+                    self.sweep.append((cls, k))
         for n in ["itrf2008_to_gda94", "gda94_to_itrf2005", "itrf2014_to_gda2020", "itrf2020_to_itrf93", "gda94_to_gda2020"]:
             t["tr_alg"].append(("neg#%s" % n, lambda s: -s, (lambda n=n: (getattr(gc, n),))))
         for n in ["itrf2008_to_gda94", "gda94_to_itrf2005", "itrf2014_to_gda2020", "itrf2020_to_itrf93", "itrf97_to_gda94"]:
